@@ -32,7 +32,7 @@ def main():
          "setup_cmd": "bin/setup",
          "hooks": {"guard": "PHOTOSPLINE_VERIF",
                    "enable": "drivers are compiled by lib/vlib.py from /repo's working tree with -DPHOTOSPLINE_VERIF (friend access struct photospline_verif_access in include/photospline/splinetable.h); no behaviour change",
-                   "baseline_off_cmd": "cmake --build /repo/_build && ctest --test-dir /repo/_build -j8 --timeout 900",
+                   "baseline_off_cmd": "cmake --build /repo/_build -- -k 0; ctest --test-dir /repo/_build -j8 --timeout 900",
                    "source_commits": ["3d7b56d"], "add_only": True},
          "engines": [{"name": "tlc+psdriver", "path": "bin/check", "serves_properties": sorted(CHECKS),
                       "kind_free_text": "TLA+ specifications under spec/ checked with TLC; behaviours/cases replayed into C++ conformance drivers under harness/ built from /repo; real executions validated by Trace_*.tla"}],
